@@ -9,6 +9,11 @@ import Dashu.Proofs.Int.Cmp
   operation yields canonical form) are collected in `producers_canonical`.  `cmp_wrong_without_canon`
   shows the hypothesis is needed: the 2-word heap value that `UBig::ones(128)` built before fix
   283f2ad compares `Greater` than the equal inline value although `==` holds.
+
+  Floats: `repr_cmp_same_base` = order of the values under the invariant `digits ≤ precision`
+  (counterexample without it), `normalize` canonical, `==` ⇔ `cmp = Equal`.
+  Rationals: `repr_cmp`/`repr_eq` = cross multiplication for non-reduced fractions; structural
+  `RBig ==` on reduced ones.
 -/
 namespace Dashu.Props.C05
 open Dashu.Model
@@ -101,6 +106,81 @@ theorem signed_producers_canonical (W : Nat) (hW : 1 ≤ W) (a b : SRepr) (ha : 
       have hx : x < 0 := by simpa [sOfInt] using h
       show (ofNat W x.natAbs).value W ≠ 0
       rw [ofNat_value W hW]; omega⟩⟩
+
+-- ================================================================== floats
+
+/-- `FBig::cmp / partial_cmp` (`repr_cmp_same_base`) is the total order of the values
+    `signif · B^exp` with the infinities at the two ends — for operands of ANY precision and any
+    rounding mode (the rounding mode does not occur in the function), PROVIDED every operand with a
+    limited precision `p` has at most `p` significant digits (`|signif| < B^p`; this is the invariant
+    that `FBig::from_repr` debug-asserts), and for every digit estimator `digitsUb` that is an upper
+    bound (the code's `digits_ub` f32 estimate enters only through this hypothesis). -/
+theorem float_cmp (B : Nat) (hB : 2 ≤ B) (digitsUb : Int → Nat)
+    (hub : ∀ s : Int, s.natAbs < B ^ digitsUb s)
+    (lhs rhs : FRepr) (prec : Option (Nat × Nat))
+    (hprec : ∀ lp rp, prec = some (lp, rp) →
+      (lp ≠ 0 → lhs.signif.natAbs < B ^ lp) ∧ (rp ≠ 0 → rhs.signif.natAbs < B ^ rp)) :
+    reprCmpSameBase B digitsUb lhs rhs prec = specFCmp B lhs rhs :=
+  reprCmpSameBase_spec B hB digitsUb hub lhs rhs prec hprec
+
+/- FULL statement (no hypothesis on the digits), FALSE for the code as it is because producers exist
+   that violate the invariant (`Context::convert_base`, known finding, proposed_fixes/convert_base_round.diff):
+   theorem float_cmp_full … : reprCmpSameBase B digitsUb lhs rhs prec = specFCmp B lhs rhs            -/
+
+/-- the hypothesis `digits ≤ precision` is needed: the value `824633720832` with precision 3 (what
+    `with_base::<10>()` returns for the binary float `3·2^38` of precision 10) is ordered BELOW `2·10^6`
+    by the precision shortcut, with an exact digit counter as estimator. -/
+theorem float_cmp_needs_precision_bound :
+    let c : FRepr := ⟨824633720832, 0⟩
+    let b : FRepr := ⟨2, 6⟩
+    reprCmpSameBase 10 (fun s => digitsNat 10 s.natAbs) c b (some (3, 1)) = .lt ∧
+    specFCmp 10 c b = .gt ∧ ¬ (c.signif.natAbs < 10 ^ 3) := by
+  refine ⟨by decide, by decide, by decide⟩
+
+/-- `Repr::normalize` returns the canonical representation of the same value: significand not
+    divisible by the base, zero as `0·B^0`, never an infinity -/
+theorem float_normalize (B : Nat) (hB : 2 ≤ B) (r : FRepr) :
+    FCanon B (r.normalize B) ∧ (r.normalize B).isInfinite = false ∧
+    (r.signif ≠ 0 → r.exp ≤ (r.normalize B).exp ∧
+      r.signif = (r.normalize B).signif * (B : Int) ^ ((r.normalize B).exp - r.exp).toNat) ∧
+    (r.signif = 0 → r.normalize B = ⟨0, 0⟩) :=
+  normalize_spec B hB r
+
+/-- `FBig ==` (structural comparison of normalised representations; infinities by sign; the context —
+    precision and rounding mode — is ignored) holds exactly when the values are equal, which is
+    exactly when the order says `Equal` -/
+theorem float_eq_iff_cmp_equal (B : Nat) (hB : 2 ≤ B) (a b : FRepr) (ha : FCanon B a) (hb : FCanon B b) :
+    fbigEq a b = true ↔ specFCmp B a b = .eq :=
+  fbigEq_iff B hB a b ha hb
+
+-- ================================================================== rationals
+
+/-- `Relaxed` / `RBig` `cmp` (`repr_cmp`) is the order of the values: comparison of the cross
+    products, for arbitrary non-reduced fractions with positive denominators (the bit-length
+    shortcut of step 3 is sound; its second test is dead code) -/
+theorem ratio_cmp (a b : QRepr) (ha : 0 < a.den) (hb : 0 < b.den) :
+    reprCmp a b = compare (a.num * b.den) (b.num * a.den) :=
+  reprCmp_spec a b ha hb
+
+/-- `Relaxed ==` (`repr_eq`) is equality of the values, also for non-reduced fractions -/
+theorem relaxed_eq (a b : QRepr) (ha : 0 < a.den) (hb : 0 < b.den) :
+    reprEq a b = true ↔ a.num * b.den = b.num * a.den := by
+  rw [reprEq_spec a b ha hb]; simp [specQEq]
+
+/-- `RBig ==` (structural) is equality of the values on reduced fractions, and then the hash feed
+    (numerator then denominator, each an integer feed) of equal values is equal -/
+theorem rbig_eq (a b : QRepr) (ha : 0 < a.den) (hb : 0 < b.den)
+    (hra : Nat.gcd a.num.natAbs a.den = 1) (hrb : Nat.gcd b.num.natAbs b.den = 1) :
+    (rbigEq a b = true ↔ a.num * b.den = b.num * a.den) ∧ (rbigEq a b = true → a = b) := by
+  refine ⟨by rw [rbigEq_spec a b ha hb hra hrb]; simp [specQEq], fun h => ?_⟩
+  obtain ⟨an, ad⟩ := a; obtain ⟨bn, bd⟩ := b
+  simp only [rbigEq, Bool.and_eq_true, beq_iff_eq] at h
+  rw [h.1, h.2]
+
+/-- `cmp == Equal` exactly when `==` for rationals -/
+theorem ratio_cmp_equal_iff_eq (a b : QRepr) (ha : 0 < a.den) (hb : 0 < b.den) :
+    reprCmp a b = .eq ↔ reprEq a b = true := by
+  rw [ratio_cmp a b ha hb, relaxed_eq a b ha hb, Int.compare_eq_eq]
 
 -- non-vacuity: two canonical 3-word heap values that differ only in the middle word
 example : SCanon 64 ⟨true, .large [5, 7, 1]⟩ ∧ SCanon 64 ⟨true, .large [5, 8, 1]⟩ ∧
